@@ -6,7 +6,7 @@ import sys
 
 ROOT = os.path.dirname(os.path.dirname(os.path.abspath(__file__)))
 
-HOOK_COMMITS = ["b1474d3", "17f8504", "209f7d4", "d1c653d", "95035df"]
+HOOK_COMMITS = ["b1474d3", "17f8504", "209f7d4", "d1c653d", "95035df", "920cc08"]
 
 CHECKS = {
     "C07": {
@@ -144,10 +144,11 @@ CHECKS["C13"] = {
 
 CHECKS["C12"] = {
     "category": "model_checking",
-    "technique": "TLA+ Handshake.tla (Dolev-Yao style adversary, Auth checked by TLC) and Pool.tla; their case tables / operation sequences replayed on the real handshakes over real noise sessions and on the real PoolWatch (T2)",
+    "technique": "TLA+ Handshake.tla (Dolev-Yao style adversary, Auth checked by TLC) and Pool.tla; their case tables / operation sequences replayed on the real handshakes over real noise sessions, on the real PoolWatch, and on a real running node dialled over loopback TCP (T2)",
     "text": "Auth is checked on the specification for every adversary message; every message class (claimed key, session, chain, signer) is then put on a real "
             "encrypted loopback session against the real gossip and validator handshakes (incl. validator pool admission) and the verdict and attributed key "
-            "compared; pool sequences are exhaustive for 5 operations plus a concurrent stress.",
+            "compared; pool sequences are exhaustive for 5 operations plus a concurrent stress; the same sequences (connect = dial + authenticate, remove = hang up) and racing "
+            "dials are replayed against a real node's gossip and validator listeners, comparing admission and the node's inbound pools with Pool.tla.",
     "note": "Signature unforgeability and session-id uniqueness assumed (the latter is the noise transcript hash); malformed/unsigned frames are covered by C10, not here; pool thread interleavings not controlled.",
     "design_ref": "§7 C12",
 }
